@@ -330,6 +330,15 @@ def include_cases(rep):
             files[f"deep{i}.bard"] = (f"@include deep{i + 1}.bard\n" if i < 1149 else "") + f":: D{i}\nx\n"
         for k, v in files.items():
             open(os.path.join(d, k), "w").write(v)
+        # an include target that is a symlink pointing at itself, and one pointing at a directory
+        try:
+            os.symlink("selfloop.bard", os.path.join(d, "selfloop.bard"))
+            os.symlink(d, os.path.join(d, "dirlink.bard"))
+            for k, v in (("inc_selfloop.bard", "@include selfloop.bard\n:: Start\nx\n"), ("inc_dirlink.bard", "@include dirlink.bard\n:: Start\nx\n")):
+                files[k] = v
+                open(os.path.join(d, k), "w").write(v)
+        except OSError:
+            pass
         for k in files:
             if k.startswith("deep") and k != "deep0.bard":
                 continue
